@@ -60,7 +60,7 @@ long Session::work_cap_for(long maxit) const
     return 4 * (2 + 2 * ncv * (mi + 1)) + 64;
 }
 
-ApiResult Session::take_snapshot(Snapshot& s, long nvec, const Fault* fault, OpRecord* rec)
+ApiResult Session::take_snapshot(Snapshot& s, long nvec, const Fault* fault, OpRecord* rec, int vary)
 {
     TaskCtx* saved = current_ctx();
     current_ctx() = &ctx;
@@ -72,11 +72,25 @@ ApiResult Session::take_snapshot(Snapshot& s, long nvec, const Fault* fault, OpR
     }
     ctx.begin_api(OP_READ);
     ApiResult r = guarded([&]() -> long {
+        const uint64_t salt = vary >= 0 ? mix64(world->spec.mseed, 0xACCE55 + (uint64_t) vary) : 0;
+        if (salt & 4)
+        {
+            Snapshot narrow_first;
+            solver->vectors(narrow_first, (long) ((salt >> 8) % (uint64_t) (world->spec.nev + 1)));
+        }
+        if (salt & 1)
+        {
+            solver->vectors(s, nvec);
+            solver->values(s);
+        }
         s.info = solver->info();
         s.niter = solver->niter();
         s.nops = solver->nops();
-        solver->values(s);
-        solver->vectors(s, nvec);
+        if (!(salt & 1))
+        {
+            solver->values(s);
+            solver->vectors(s, nvec);
+        }
         return 0;
     });
     ctx.end_api(OP_READ, r.exc, r.threw ? 0 : s.hash());
@@ -103,7 +117,6 @@ ApiResult Session::take_snapshot(Snapshot& s, long nvec, const Fault* fault, OpR
 
 OpRecord Session::exec(const Op& op, int op_index)
 {
-    (void) op_index;
     OpRecord rec;
     rec.tainted_before = tainted;
     const long events0 = ctx.nevents;
@@ -212,7 +225,7 @@ OpRecord Session::exec(const Op& op, int op_index)
     if (op.kind == OP_COMPUTE && !rec.res.threw)
     {
         rec.snap.ret = rec.res.ret;
-        rec.read_res = take_snapshot(rec.snap, -1, nullptr, &rec);
+        rec.read_res = take_snapshot(rec.snap, -1, nullptr, &rec, op_index);
         current_ctx() = &ctx;
         rec.has_snap = !rec.read_res.threw;
         rec.computes_since_init = computes_since_init;
